@@ -14,6 +14,7 @@ let () =
     | "emit" -> M_emit.handle
     | "request" -> M_request.handle
     | "doc" -> M_doc.handle
+    | "syntax" -> M_syntax.handle
     | _ -> prerr_endline ("unknown component " ^ comp); exit 2 in
   let out = Buffer.create 65536 in
   (try while true do
